@@ -398,6 +398,74 @@ def wildcard_order(col, rng):
                           % (n, got, [k for _, _, k in log]), None)
 
 
+def deep_wildcards(col, rng):
+    """1-4 wildcard layers in the destination: assignment at every match, final segment a key or an index"""
+    import copy
+    for layers in (1, 2, 3, 4):
+        for final in ('key', 'index'):
+            def build(d):
+                if d == 0:
+                    return {'leaf': [0, 1], 'k': 'old'}
+                return {'n%d' % d: [build(d - 1) for _ in range(rng.randint(1, 2))]}
+            t1 = build(layers)
+            t2 = copy.deepcopy(t1)
+            segs = []
+            for d in range(layers, 0, -1):
+                segs += ['n%d' % d, '*']
+            path = '.'.join(segs + (['k'] if final == 'key' else ['leaf', '0']))
+
+            def leaves(node, d):
+                if d == 0:
+                    return [node]
+                out = []
+                for ch in node['n%d' % d]:
+                    out.extend(leaves(ch, d - 1))
+                return out
+            for leaf in leaves(t2, layers):
+                if final == 'key':
+                    leaf['k'] = 'NEW'
+                else:
+                    leaf['leaf'][0] = 'NEW'
+            got = call(assign, t1, path, 'NEW')
+            col.case(('deep-wildcards', layers, final), layers >= 2)
+            col.count('assignments_attempted')
+            if not got.ok or got.value is not t1 or t1 != t2:
+                col.violation('C11/wildcard-assignment-misses-matches:%d-layers' % layers,
+                              'assign(t, %r, NEW): %r ; target now %s, plain Python loops give %s' % (path, got if not got.ok else 'returned', short(t1, 300), short(t2, 300)), None)
+
+
+def reused_assign_object(col, rng):
+    """one Assign object evaluated several times (list spec): every evaluation assigns ITS value, with and without missing="""
+    for missing in (None, dict):
+        for depth in (1, 2, 3):
+            path = '.'.join(['m%d' % i for i in range(depth)] + ['slot'])
+            spec_obj = Assign(path, T['v'], missing=missing)
+            targets = [{'v': 'v%d' % i} for i in range(4)]
+            if missing is None:
+                for t in targets:
+                    cur = t
+                    for i in range(depth):
+                        cur['m%d' % i] = {}
+                        cur = cur['m%d' % i]
+            got = call(G, targets, [spec_obj])
+            col.case(('reused-assign', missing is not None, depth), True)
+            col.count('assignments_attempted')
+            ok = got.ok
+            if ok:
+                for i, t in enumerate(targets):
+                    cur = t
+                    try:
+                        for seg in path.split('.'):
+                            cur = cur[seg]
+                    except Exception:
+                        cur = '<missing>'
+                    if cur != 'v%d' % i:
+                        ok = False
+            if not ok:
+                col.violation('C11/reused-assign-object-writes-stale-value:%s' % ('missing' if missing else 'plain'),
+                              'glom(targets, [Assign(%r, T[v]%s)]) -> %s' % (path, ', missing=dict' if missing else '', short(targets if got.ok else got, 400)), None)
+
+
 def run(ctx):
     col, rng = ctx.col, ctx.rng
     col.require('successful_edits', 300)
@@ -407,5 +475,7 @@ def run(ctx):
     if ctx.shard == 0:
         s_rooted(col, rng)
         wildcard_order(col, rng)
+        deep_wildcards(col, rng)
+        reused_assign_object(col, rng)
     for i in range(ctx.n(300, 3000)):
         one_target(col, rng)
